@@ -512,7 +512,44 @@ def independentKinds : List String :=
 the effect of `Close` on a later `Handle` is **sampled** by the `filters` harness only. -/
 def closeInterferingKinds : List (String × String) :=
   [("Proxy", "Close closes mainPool / mirrorPool (and the candidate pools): stops their health checkers and load balancers; Handle picks a pool and a server from them"),
-   ("Validator", "Close closes basicAuth (stops the user file / etcd watcher goroutine and cancels its context); Handle calls basicAuth.Validate on the cached credentials")]
+   ("Validator", "Close closes basicAuth (stops the user file / etcd watcher goroutine and cancels its context); Handle calls basicAuth.Validate on the cached credentials — the old generation after Close is sampled; that Close of generation g-1 cannot reach generation g's cache is modelled explicitly (vRun) and driven by the validatorgen harness")]
+
+/-! ### Validator: the basicAuth user cache across generations (`pkg/filters/validator`)
+
+`Validator.reload` builds a fresh `BasicAuthValidator` (user cache + fsnotify watcher / etcd syncer)
+for every generation; `Validator.Close` closes its own. `Pipeline.Inherit` is
+`new.Inherit(old); old.Close()`. A generation's cache is *alive* while nobody closed it. `share`
+is the contrast semantics (seeded change C06-m5): the new generation takes over the previous
+generation's cache object when the basicAuth section is unchanged. -/
+
+structure VSt where
+  /-- identity of the cache object the current generation's `basicAuth` holds -/
+  cur : Nat
+  /-- cache objects whose `Close()` has run -/
+  closed : List Nat
+  /-- next fresh object identity -/
+  next : Nat
+deriving DecidableEq, Repr
+
+/-- `Init()` of the first generation. -/
+def vInit : VSt := ⟨0, [], 1⟩
+
+/-- One pipeline update: `new.Inherit(old)` then `old.Close()`. `sameAuth`: the basicAuth section
+of the new spec equals the old one. -/
+def vStep (share : Bool) (s : VSt) (sameAuth : Bool) : VSt :=
+  ⟨if share && sameAuth then s.cur else s.next, s.cur :: s.closed, s.next + 1⟩
+
+def vRun (share : Bool) (s : VSt) : List Bool → VSt
+  | [] => s
+  | a :: rest => vRun share (vStep share s a) rest
+
+/-- The current generation's cache still has its update source. -/
+def vAlive (s : VSt) : Bool := !s.closed.contains s.cur
+
+/-- What the `validatorgen` harness observes after every step (the first entry is `Init`). -/
+def vTrace (share : Bool) (s : VSt) : List Bool → List Bool
+  | [] => [vAlive s]
+  | a :: rest => vAlive s :: vTrace share (vStep share s a) rest
 
 /-! ### Kafka / KafkaMQTT (explicit; `pkg/filters/kafkabackend/kafka.go`, `pkg/filters/kafka/kafka.go`)
 
